@@ -1005,7 +1005,11 @@ pub fn known_main(id: &str) {
                 let info = TreeInfo::new(&tree, src3);
                 match execute_fresh(&file, &tree, &info, &[], lazy, false) { Obs::Ok(_) => "ok".into(), Obs::Err(c, _) => format!("err {}", c), Obs::Panic => "panic".into() }
             };
+            // the same dependency cycle routed through local variables (found by the v2 simulation proof)
+            let dsl_b = "(module (expression_statement (identifier) @x) (expression_statement (identifier) @y) (expression_statement (identifier) @z)) @_m\n{\n  node n\n  let @x.a = @y\n  let t = @x.a\n  let t.b = @z\n  let u = t.b\n  let u.a = 5\n  attr (n) r = u.a\n}\n";
+            let class_ok = load(dsl).map(|f| k7_class(&f)).unwrap_or(false) && load(dsl_b).map(|f| k7_class(&f)).unwrap_or(false);
             let (rs, rl) = (run3(false), run3(true));
+            if !class_ok { "NOT-REPRODUCED (the class predicate k7_class does not recognise the witnesses)".to_string() } else
             if rs == "ok" && rl == "err 17" { "REPRODUCED strict execution succeeds, lazy execution fails with RecursivelyDefinedScopedVariable (scoped-variable definitions whose scope expressions read each other's names)".to_string() } else { format!("NOT-REPRODUCED (strict {} lazy {})", rs, rl) }
         }
         _ => "UNKNOWN".into(),
@@ -1018,35 +1022,44 @@ use tree_sitter_graph::ast;
 /// scope expressions of their definitions (name A depends on B when some `let/var/node <scope>.A` has a
 /// scope expression reading `_.B`; a self-loop counts).  Lazy forcing of A then re-enters A.
 pub fn k7_class(file: &ast::File) -> bool {
-    fn reads(e: &ast::Expression, out: &mut Vec<String>) {
+    // scoped-variable names read by an expression, following LOCAL variables to the names their defining
+    // expressions read (`let t = @x.a  let t.b = ..`: the scope `t` of the definition of `b` reads `a`)
+    fn reads(e: &ast::Expression, locals: &Vec<(String, Vec<String>)>, out: &mut Vec<String>) {
         use ast::Expression as E;
         match e {
-            E::ListLiteral(l) => l.elements.iter().for_each(|x| reads(x, out)),
-            E::SetLiteral(l) => l.elements.iter().for_each(|x| reads(x, out)),
-            E::ListComprehension(c) => { reads(&c.element, out); reads(&c.value, out); }
-            E::SetComprehension(c) => { reads(&c.element, out); reads(&c.value, out); }
-            E::Variable(ast::Variable::Scoped(v)) => { out.push(v.name.as_str().to_string()); reads(&v.scope, out); }
-            E::Call(c) => c.parameters.iter().for_each(|x| reads(x, out)),
+            E::ListLiteral(l) => l.elements.iter().for_each(|x| reads(x, locals, out)),
+            E::SetLiteral(l) => l.elements.iter().for_each(|x| reads(x, locals, out)),
+            E::ListComprehension(c) => { reads(&c.element, locals, out); reads(&c.value, locals, out); }
+            E::SetComprehension(c) => { reads(&c.element, locals, out); reads(&c.value, locals, out); }
+            E::Variable(ast::Variable::Scoped(v)) => { out.push(v.name.as_str().to_string()); reads(&v.scope, locals, out); }
+            E::Variable(ast::Variable::Unscoped(v)) => { for (n, r) in locals.iter().rev() { if n == v.name.as_str() { out.extend(r.iter().cloned()); break; } } }
+            E::Call(c) => c.parameters.iter().for_each(|x| reads(x, locals, out)),
             _ => {}
         }
     }
-    fn defs(stmts: &[ast::Statement], deps: &mut Vec<(String, Vec<String>)>) {
+    fn defs(stmts: &[ast::Statement], locals: &mut Vec<(String, Vec<String>)>, deps: &mut Vec<(String, Vec<String>)>) {
         use ast::Statement as S;
-        let mut def = |v: &ast::Variable, deps: &mut Vec<(String, Vec<String>)>| { if let ast::Variable::Scoped(sv) = v { let mut r = Vec::new(); reads(&sv.scope, &mut r); deps.push((sv.name.as_str().to_string(), r)); } };
+        let bind = |v: &ast::Variable, value: Option<&ast::Expression>, locals: &mut Vec<(String, Vec<String>)>, deps: &mut Vec<(String, Vec<String>)>| {
+            match v {
+                ast::Variable::Scoped(sv) => { let mut r = Vec::new(); reads(&sv.scope, locals, &mut r); deps.push((sv.name.as_str().to_string(), r)); }
+                ast::Variable::Unscoped(uv) => { let mut r = Vec::new(); if let Some(e) = value { reads(e, locals, &mut r); } locals.push((uv.name.as_str().to_string(), r)); }
+            }
+        };
         for s in stmts {
             match s {
-                S::DeclareImmutable(d) => def(&d.variable, deps),
-                S::DeclareMutable(d) => def(&d.variable, deps),
-                S::CreateGraphNode(d) => def(&d.node, deps),
-                S::Scan(d) => d.arms.iter().for_each(|a| defs(&a.statements, deps)),
-                S::If(d) => d.arms.iter().for_each(|a| defs(&a.statements, deps)),
-                S::ForIn(d) => defs(&d.statements, deps),
+                S::DeclareImmutable(d) => bind(&d.variable, Some(&d.value), locals, deps),
+                S::DeclareMutable(d) => bind(&d.variable, Some(&d.value), locals, deps),
+                S::Assign(d) => bind(&d.variable, Some(&d.value), locals, deps),
+                S::CreateGraphNode(d) => bind(&d.node, None, locals, deps),
+                S::Scan(d) => d.arms.iter().for_each(|a| { let k = locals.len(); defs(&a.statements, locals, deps); locals.truncate(k); }),
+                S::If(d) => d.arms.iter().for_each(|a| { let k = locals.len(); defs(&a.statements, locals, deps); locals.truncate(k); }),
+                S::ForIn(d) => { let k = locals.len(); let mut r = Vec::new(); reads(&d.value, locals, &mut r); locals.push((d.variable.name.as_str().to_string(), r)); defs(&d.statements, locals, deps); locals.truncate(k); }
                 _ => {}
             }
         }
     }
     let mut deps: Vec<(String, Vec<String>)> = Vec::new();
-    for st in &file.stanzas { defs(&st.statements, &mut deps); }
+    for st in &file.stanzas { let mut locals = Vec::new(); defs(&st.statements, &mut locals, &mut deps); }
     // reachability closure over names
     let names: Vec<String> = { let mut v: Vec<String> = deps.iter().map(|d| d.0.clone()).collect(); v.sort(); v.dedup(); v };
     for start in &names {
